@@ -135,6 +135,15 @@ func DriverMain(args []string) int {
 			cases = append(cases, c)
 		}
 	}
+	if lim := envInt("VERIF_LIMIT", 0); lim > 0 && int(lim) < len(cases) {
+		// development aid: evenly spaced subset
+		var sub []Case
+		step := len(cases) / int(lim)
+		for i := 0; i < len(cases); i += step {
+			sub = append(sub, cases[i])
+		}
+		cases = sub
+	}
 	for i := range cases {
 		cases[i].ID = i
 	}
@@ -296,6 +305,13 @@ func (run *Run) runBatch(name string, cases []Case) []Result {
 	cmd.Stderr = lf
 	racePrefix := filepath.Join(dir, "race")
 	cmd.Env = append(os.Environ(), "GORACE=halt_on_error=0 log_path="+racePrefix, "GOTRACEBACK=all")
+	if p.WorkerProcs >= 0 {
+		procs := p.WorkerProcs
+		if procs == 0 {
+			procs = 2
+		}
+		cmd.Env = append(cmd.Env, fmt.Sprintf("GOMAXPROCS=%d", procs))
+	}
 	if p.Env != nil && len(cases) > 0 {
 		cmd.Env = append(cmd.Env, p.Env(cases[0])...)
 	}
